@@ -139,7 +139,7 @@ def run_case(case):
     width = vmax - vmin
     dv = width / (nv - 1)
     adv = VParallelAdvection([None, None, None, pts], bs, c, edge=edge)
-    datas = [('e%d' % k, np.eye(nv)[k]) for k in range(nv)] + [('zero', np.zeros(nv)), ('dense', np.cos(pts) + 0.1 * pts ** 2), ('tiny', 1e-11 * (np.cos(pts) + 0.1 * pts ** 2))]
+    datas = [('e%d' % k, np.eye(nv)[k]) for k in range(nv)] + [('zero', np.zeros(nv)), ('dense', np.cos(pts) + 0.1 * pts ** 2), ('tiny', 1e-20 * (np.cos(pts) + 0.1 * pts ** 2))]
     evals = nontriv = skipped = 0
     worst = 0.0
     for cls in (0.0, 0.3, 1.0, 2.5, nv + 0.5, 2 * nv + 0.3):
